@@ -270,7 +270,7 @@ func propC04(c *Ctx) {
 	rpe := c.Rule("pool-escape", "no codec function returns bytes derived from an object it hands back to a sync.Pool: encoded data must own its storage", 1)
 	rulePoolEscape(c, rpe, l.RepoFuncs(func(pp string) bool { return pp == encPath }))
 
-	rgi := c.Rule("gob-iface", "the gob fallback writes interface values (pointer to interface), matching the reader that decodes into an interface", 2)
+	rgi := c.Rule("gob-iface", "the gob fallback writes interface values (pointer to interface), matching the reader that decodes into an interface", 1)
 	ruleGobIface(c, rgi)
 	rcf := c.Rule("copy-all-fields", "a decoder that publishes a Bytecode field by field copies every field", 0)
 	ruleCopyAllFields(c, rcf)
@@ -309,7 +309,8 @@ func ruleRebind(c *Ctx, rule string, fix *ssa.Function) {
 	l := c.L
 	attr, _ := l.ByPath[modPath].Types.Scope().Lookup("AttrModuleName").(*types.Const)
 	var updates []*ssa.MapUpdate
-	eachInstr(fix, func(ins ssa.Instruction) {
+	// also in the helpers the loop over the module's items may have been moved to
+	eachInstrDeep(fix, 2, func(ins ssa.Instruction) {
 		if mu, ok := ins.(*ssa.MapUpdate); ok {
 			updates = append(updates, mu)
 		}
